@@ -611,3 +611,10 @@ pub const C03_DICT: [&str; 40] = [
     "<img src=/1 alt=zz>", "<img alt=q>", "<h1>", "</h1>", "<dl><dt>", "<dd>", "</dl>", "<em>",
     "</em>", "<s>", "</s>", "<code>", "<!--", "-->",
 ];
+
+pub fn judge_doc(out: &mut CaseOut, input: &[u8], cfg: &Cfg, w: usize) {
+    if let Outcome::Ok(s) = render_string(cfg, input, w) {
+        let dom = odom::parse(input);
+        check_preserved(out, &dom, input, w, cfg, &s, false);
+    }
+}
